@@ -136,7 +136,7 @@ def gen(rng, cid, plugin):
 
 
 def cases(seed, tier):
-    per = 200 if tier == "quick" else 3000
+    per = 300 if tier == "quick" else 3000
     rng = random.Random(seed * 1000003 + 9)
     for i in range(per * 5):
         yield gen(rng, "C09-%d-%d" % (seed, i), KG.PLUGINS[i % 5])
